@@ -612,13 +612,14 @@ impl BuiltInFunction {
                     unreachable!()
                 };
 
-                let s = if s.starts_with("0x") {
-                    s.get(2..).unwrap_or_default()
+                // a `0x` prefix introduces a hexadecimal numeral, as it does in source text
+                let parsed = if s.starts_with("0x") {
+                    i32::from_str_radix(s.get(2..).unwrap_or_default(), 16)
                 } else {
-                    s
+                    s.parse::<i32>()
                 };
 
-                if let Ok(num) = s.parse::<i32>() {
+                if let Ok(num) = parsed {
                     Ok((
                         Some(Primitive::Optional(Some(Box::new(Primitive::Int(num))))),
                         None,
@@ -632,13 +633,14 @@ impl BuiltInFunction {
                     unreachable!()
                 };
 
-                let s = if s.starts_with("0x") {
-                    s.get(2..).unwrap_or_default()
+                // a `0x` prefix introduces a hexadecimal numeral, as it does in source text
+                let parsed = if s.starts_with("0x") {
+                    i128::from_str_radix(s.get(2..).unwrap_or_default(), 16)
                 } else {
-                    s
+                    s.parse::<i128>()
                 };
 
-                if let Ok(num) = s.parse::<i128>() {
+                if let Ok(num) = parsed {
                     Ok((
                         Some(Primitive::Optional(Some(Box::new(Primitive::BigInt(num))))),
                         None,
